@@ -157,6 +157,19 @@ def run_one(mod, seed=None, prefix=None):
     return res
 
 
+def run_case_one(mod, case):
+    """Execute one decoded case (second-stage replay format); same result shape as run_one."""
+    try:
+        res = mod.run_case(json.loads(json.dumps(case)))
+    except BaseException as e:  # noqa: BLE001
+        if isinstance(e, (KeyboardInterrupt, SystemExit)):
+            raise
+        return {"harness_error": "".join(traceback.format_exception(e))[-4000:], "tape": []}
+    res.setdefault("violations", [])
+    res["tape"] = []
+    return res
+
+
 def _chunk(modname, items, keep_samples):
     mod = _load(modname)
     out = []
@@ -224,6 +237,31 @@ def minimise(mod, res, viol, budget):
         vals = res["tape"]
         final = run_one(mod, prefix=vals)
         v = clause_of(final, clause)
+    final["min_case"] = None
+    if v is not None and hasattr(mod, "run_case") and hasattr(mod, "shrink_case") and final.get("case"):
+        # second stage: structural minimisation of the decoded case
+        def still_case(case):
+            r = run_case_one(mod, case)
+            if r.get("harness_error"):
+                return False
+            w = clause_of(r, clause)
+            if w is None:
+                return False
+            return not hasattr(mod, "classify") or mod.classify(w) == fkey
+
+        case0 = json.loads(json.dumps(final["case"]))
+        if still_case(case0):
+            faulthandler.dump_traceback_later(RUN_WALL_LIMIT * 4, exit=True)
+            try:
+                case, calls2 = mod.shrink_case(case0, still_case)
+            finally:
+                faulthandler.cancel_dump_traceback_later()
+            r = run_case_one(mod, case)
+            w = clause_of(r, clause)
+            if w is not None:
+                calls += calls2
+                r["min_case"] = case
+                return vals, r, w, calls
     return vals, final, v, calls
 
 
@@ -242,6 +280,7 @@ def write_replay(mod, seed, vals, final, viol, fkey):
                 "finding_key": fkey,
                 "seed": seed,
                 "tape": vals,
+                "case": final.get("min_case"),
                 "decoded": final.get("sample"),
                 "detail": viol.get("detail"),
             },
@@ -254,7 +293,11 @@ def write_replay(mod, seed, vals, final, viol, fkey):
 
 def replay_file(mod, path, quiet=False):
     data = json.loads(pathlib.Path(path).read_text())
-    r = run_one(mod, prefix=data["tape"])
+    if data.get("case") is not None and hasattr(mod, "run_case"):
+        # minimised decoded case (the tape in the file is the stage-one result it came from)
+        r = run_case_one(mod, data["case"])
+    else:
+        r = run_one(mod, prefix=data["tape"])
     if r.get("harness_error"):
         print("HARNESS-ERROR during replay:\n" + r["harness_error"])
         return 2
